@@ -995,6 +995,149 @@ func stageSpec(d *driver, cs *caseSource, kindsWanted []string, withStep bool, t
 	return s
 }
 
+// ---------------------------------------------------------------------------
+// RW: runeWidth on every code point x every grapheme class value vs the model
+
+func stageRW(driverPath string, amb int) stageResult {
+	s := stageResult{Name: "RW", Exhaustive: true, Domain: "runeWidth(r, prop) for all 1,114,112 code points x all 16 grapheme class values, run-length encoded, vs Impl.runeWidth"}
+	for p := 0; p < 16; p++ {
+		var real []string
+		lo, cur := 0, u.VerifRuneWidth(0, p)
+		for r := rune(1); r <= 0x10FFFF; r++ {
+			v := u.VerifRuneWidth(r, p)
+			if v != cur {
+				real = append(real, fmt.Sprintf("%d %d %d", lo, r-1, cur))
+				lo, cur = int(r), v
+			}
+		}
+		real = append(real, fmt.Sprintf("%d %d %d", lo, 0x10FFFF, cur))
+		s.Evaluations += 0x110000
+		model := driverDump(driverPath, fmt.Sprintf("dumprw %d %d", amb, p))
+		if strings.Join(real, "\n") != strings.Join(model, "\n") {
+			first := firstDiffRange(real, model)
+			s.add(fmt.Sprintf("dumprw %d %d", amb, p), first[0], first[1], "first differing range")
+		}
+	}
+	s.Samples = []string{"runeWidth(U+4E16, prAny) = " + fmt.Sprint(u.VerifRuneWidth(0x4E16, 1))}
+	return s
+}
+
+// ---------------------------------------------------------------------------
+// WIDTHSPEC: real cluster widths (all four width-carrying loops, chained and stand-alone) and
+// StringWidth vs the documented width model in Lean (Spec/Width.lean on the spec's clusters)
+
+func realWidths(kind string, b []byte, str bool) string {
+	segs, err := chainSegs(kind, b, str)
+	if err != "" {
+		return "ERR:" + err
+	}
+	ends := runeEnds(b, segs)
+	var parts []string
+	prev := 0
+	for i, s := range segs {
+		w := s.extra
+		if kind == "st" {
+			w = s.extra >> u.ShiftWidth
+		}
+		parts = append(parts, fmt.Sprintf("%d:%d", ends[i]-prev, w))
+		prev = ends[i]
+	}
+	if len(parts) == 0 {
+		return "-"
+	}
+	return strings.Join(parts, " ")
+}
+
+func stageWidthSpec(d *driver, cs *caseSource, thorough bool) stageResult {
+	s := stageResult{Name: "WIDTHSPEC", Domain: "widths reported by FirstGraphemeCluster(InString), Step, StepString for every cluster (chained from -1, and each cluster again on its own from -1), Graphemes.Width and StringWidth, on generated strings, vs Spec.clusterWidth over the spec's clusters"}
+	var ops []string
+	var inputs [][]byte
+	flush := func() {
+		if len(ops) == 0 {
+			return
+		}
+		specs := d.run(ops)
+		for i, b := range inputs {
+			sp := specs[i]
+			for _, k := range []string{"fg", "st"} {
+				for _, str := range []bool{false, true} {
+					s.Evaluations++
+					if rw := realWidths(k, b, str); rw != sp {
+						small := b
+						if s.MismatchCount < 10 {
+							kk, ss := k, str
+							small = shrink(b, func(x []byte) bool { return realWidths(kk, x, ss) != d.ask(fmt.Sprintf("specwidth %d %s", cs.amb, hx(x))) })
+						}
+						s.add(fmt.Sprintf("specwidth %d %s", cs.amb, hx(small)), realWidths(k, small, str), d.ask(fmt.Sprintf("specwidth %d %s", cs.amb, hx(small))),
+							fmt.Sprintf("%s string-form=%v input %+q", kindName[k], str, string(small)))
+					}
+				}
+			}
+			// each cluster on its own, from -1, and StringWidth = sum
+			total := 0
+			off := 0
+			segs, _ := chainSegs("fg", b, false)
+			for _, sg := range segs {
+				cl := b[off:sg.end]
+				_, _, w, _ := u.FirstGraphemeCluster(cl, -1)
+				_, _, bd, _ := u.Step(cl, -1)
+				s.Evaluations++
+				if w != sg.extra || bd>>u.ShiftWidth != sg.extra {
+					s.add(fmt.Sprintf("specwidth %d %s", cs.amb, hx(cl)), fmt.Sprintf("alone: FirstGraphemeCluster %d, Step %d", w, bd>>u.ShiftWidth), fmt.Sprintf("chained: %d", sg.extra),
+						fmt.Sprintf("cluster %+q of %+q has a different width on its own", string(cl), string(b)))
+				}
+				total += sg.extra
+				off = sg.end
+			}
+			if sw := u.StringWidth(string(b)); sw != total {
+				s.add(fmt.Sprintf("specwidth %d %s", cs.amb, hx(b)), fmt.Sprint("StringWidth ", sw), fmt.Sprint("sum of cluster widths ", total), fmt.Sprintf("input %+q", string(b)))
+			}
+			g := u.NewGraphemes(string(b))
+			i := 0
+			for g.Next() {
+				if i < len(segs) && g.Width() != segs[i].extra {
+					s.add(fmt.Sprintf("specwidth %d %s", cs.amb, hx(b)), fmt.Sprint("Graphemes.Width ", g.Width()), fmt.Sprint(segs[i].extra), fmt.Sprintf("cluster %d of %+q", i, string(b)))
+				}
+				i++
+			}
+		}
+		if len(s.Samples) < 3 {
+			s.Samples = append(s.Samples, ops[0]+" => "+specs[0])
+		}
+		ops, inputs = ops[:0], inputs[:0]
+	}
+	cs.each(func(i int, gc genCase) {
+		if len(gc.input) == 0 {
+			return
+		}
+		ops = append(ops, fmt.Sprintf("specwidth %d %s", cs.amb, hx(gc.input)))
+		inputs = append(inputs, gc.input)
+		if len(ops) >= 10000 {
+			flush()
+		}
+	})
+	// every code point on its own and after a few first code points that change the composition rule
+	if thorough {
+		for _, r := range ci.allReps() {
+			for _, pre := range [][]rune{{}, {0x1F600}, {0x1F1E6}, {0x1100}, {'a'}, {0x0600}} {
+				b := enc(append(append([]rune{}, pre...), r)...)
+				ops = append(ops, fmt.Sprintf("specwidth %d %s", cs.amb, hx(b)))
+				inputs = append(inputs, b)
+			}
+		}
+	} else {
+		for _, r := range ci.oneRepPerSig() {
+			for _, pre := range [][]rune{{}, {0x1F600}, {0x1100}} {
+				b := enc(append(append([]rune{}, pre...), r)...)
+				ops = append(ops, fmt.Sprintf("specwidth %d %s", cs.amb, hx(b)))
+				inputs = append(inputs, b)
+			}
+		}
+	}
+	flush()
+	return s
+}
+
 func sortedKeys(m map[string]int) []string {
 	var ks []string
 	for k := range m {
